@@ -72,6 +72,52 @@ def flag_system(rng, system, phys):
     return exp, mode
 
 
+def flag_dict_job(rng, kind):
+    """a directed system: per-environment chstt dictionaries mixing a "default" entry with explicit truthy AND falsy entries
+    (explicit False under "default": True, explicit True under "default": False, a missing key with and without default);
+    the expected flags are written down here by hand"""
+    um, um3, um2 = Fraction(1, 10 ** 6), Fraction(1, 10 ** 18), Fraction(1, 10 ** 12)
+    species = [
+        {"label": "A", "density": 5, "D": 1.0, "chstt": {"default": True, "b": False}},                  # a: True (default), b: False (explicit)
+        {"label": "B", "density": 2, "D": 0.5, "chstt": {"a": True, "default": False}},                  # a: True (explicit), b: False (default)
+        {"label": "C", "density": 1, "D": 0.25, "chstt": {"b": rng.choice([True, 1]), "a": rng.choice([False, 0])}},   # a: False, b: True, no default
+    ]
+    rng.shuffle(species)
+    labels = [sp["label"] for sp in species]
+    flag = {"A": [True, False], "B": [True, False], "C": [False, True]}
+    dens = {"A": 5, "B": 2, "C": 1}
+    dco = {"A": Fraction(1), "B": Fraction(1, 2), "C": Fraction(1, 4)}
+    net = {"environments": ["a", "b"], "species": species,
+           "reactions": [{"eq": "%s -> %s" % (labels[0], labels[1]), "k+": 1.5}, {"eq": "%s + %s -> %s" % (labels[1], labels[2], labels[0]), "k+": 0.3}]}
+    env = [0, 1, 1]
+    if kind == "grid":
+        space = {"type": "grid", "w": 3, "h": 1, "d": 1, "cell_env": env}
+        pspace = {"kind": "grid", "w": 3, "h": 1, "d": 1, "px": False, "py": False, "pz": False}
+    else:
+        space = {"type": "graph", "nodes": [{"environment": e} for e in env], "edges": [{"nodes": [0, 1]}, {"nodes": [2, 1]}]}
+        pspace = {"kind": "graph", "edges": [(0, 1, um2, um), (2, 1, um2, um)]}
+    desc = {"network": net, "space": space}
+    idx = {lab: k for k, lab in enumerate(labels)}
+    def vec(*labs):
+        v = [0, 0, 0]
+        for lab in labs:
+            v[idx[lab]] += 1
+        return v
+    phys = {"ns": 3, "n": 3, "labels": labels, "envs": ["a", "b"],
+            "reacs": [{"sub": vec(labels[0]), "prod": vec(labels[1]), "kf": [Fraction(3, 2)] * 2, "kr": [Fraction(0)] * 2},
+                      {"sub": vec(labels[1], labels[2]), "prod": vec(labels[0]), "kf": [Fraction(3, 10) * um3] * 2, "kr": [Fraction(0)] * 2}],
+            "env": env, "vol": [um3] * 3, "edge": [um] * 3, "D": [[dco[lab] * um2] * 2 for lab in labels],
+            "dens": [[Fraction(dens[lab]) / um3] * 2 for lab in labels], "chem_env": [flag[lab] for lab in labels], "space": pspace}
+    system = L.build_system(desc)
+    exp = L.default_chem_phys(phys)
+    vals = [float(rng.choice([1, 2, 3, 5, 8, 20])) for _ in range(9)]
+    C1.set_state(system, vals, L.DEFAULT_SYS, False)
+    return {"desc": desc, "phys": phys, "info": {"kind": kind, "directed": "flag-dicts"}, "system": system, "x_si": L.state_si(system.state),
+            "chem": exp, "exp_chem": exp, "real_chem": [int(v) for v in system.chemostats], "chem_mode": "keep",
+            "state": {"vals": vals, "units": list(L.DEFAULT_SYS), "as_unitarray": False}, "U": L.rand_sys(rng), "Uscript": L.DEFAULT_SYS,
+            "dt_nat": Fraction(1, 256), "parallel": False, "integer_state": True}
+
+
 def make_job(ctx, rng, kind, size1=False, integer_state=False):
     desc, phys, info = L.gen_system(rng, kind=kind, max_cells=1 if size1 else ctx.n(6, 16), chem_p=0.5, max_order=2 if integer_state else 4,
                                     non_growing=integer_state, min_env=(2 if (size1 and rng.random() < 0.6) else 1))
@@ -377,58 +423,93 @@ def replay_stochastic(ctx, jb, option, script, ss, draws, case):
                 return
 
 
+RESERVOIRS = [1000, 2 ** 24 + 1, 5 * 10 ** 9 + 1]      # molecules in the chemostated entry: small, above 2^24 (odd), above 2^31 (odd)
+
+
+def scenario_eval(case):
+    """build and run one scenario on the real engine; returns (holds, what-failed or None, detail)"""
+    import math
+    ns, f, p, scen, kind, option = case["ns"], case["flagged"], case["product"], case["scenario"], case["space"], case["option"]
+    N, k, nsteps = case["N"], case["k"], case["nsteps"]
+    labels = L.LABELS[:ns]
+    species = [{"label": lab, "D": (1.0 if scen == "source" else 0.0), "density": 0} for lab in labels]
+    net = {"species": species, "reactions": [{"eq": "%s -> %s" % (labels[f], labels[p]), "k+": k}] if scen == "reactant" else []}
+    space = {"type": "grid", "w": 2, "h": 1, "d": 1} if kind == "grid" else {"type": "graph", "nodes": [{}, {}], "edges": [{"nodes": [0, 1]}]}
+    system = L.build_system({"network": net, "space": space})
+    n = 2
+    x = [0.0] * (ns * n)
+    x[f * n] = float(N)
+    system.state = x
+    system.reset_chemostats()
+    system.set_chemostat(f, 0, 1)
+    if scen == "reactant":
+        system.set_chemostat(f, 1, 1)
+    chem = [int(v) for v in system.chemostats]
+    dt = Fraction(1, 16)
+    script, traj, _ = run_engine(system, option, L.DEFAULT_SYS, dt, nsteps, case["seed"], False)
+    ss = engine_io.samples(traj)
+    last = ss[-1][1]
+    target = (f * n + 1) if scen == "source" else (p * n)
+    detail = {"first": ss[0][1], "last": last, "chem": chem, "iterations": len(ss) - 1, "watched_entry": target}
+    if any(ss[j][1][e] != ss[0][1][e] for j in range(len(ss)) for e in range(ns * n) if chem[e]):
+        return False, "a chemostated entry changed", detail
+    if scen == "source":
+        if not last[target] > 0:
+            return False, ("the free cell next to a chemostated cell holding %d molecules (D = 1) is still empty after %d iterations: "
+                           "the flagged entry does not act as a diffusion source" % (N, len(ss) - 1)), detail
+        return True, None, detail
+    # reactant: flagged A (N molecules, constant) -> free B with constant k: B grows at the constant rate k*N
+    got = last[target]
+    if option == "euler":
+        exp = float(nsteps * dt) * k * N
+        detail["expected"] = exp
+        if not close(got, Fraction(exp), rel=1e-9):
+            return False, "Euler: the product of the chemostated reactant is %r after %d steps, k*N*t = %r" % (got, nsteps, exp), detail
+    elif option == "tauleap":
+        exp = float(nsteps * dt) * k * N
+        detail["expected_mean"] = exp
+        if not (got > 0 and abs(got - exp) <= 8 * math.sqrt(exp) + 1):
+            return False, ("tau-leap: the product of the chemostated reactant (%d molecules, k = %r) is %r after %d steps; the expected number of "
+                           "firings is %r (a count this far off has probability < 1e-12): the flagged entry does not act as a reactant" % (N, k, got, nsteps, exp)), detail
+    else:
+        detail["expected"] = nsteps
+        if len(ss) - 1 != nsteps or got != nsteps:
+            return False, ("Gillespie: %d iterations recorded and %r product molecules after %d requested iterations; the only possible event is the "
+                           "conversion of the chemostated reactant (%d molecules, propensity k*N = %r > 0), one per iteration"
+                           % (len(ss) - 1, got, nsteps, N, k * N)), detail
+    return True, None, detail
+
+
 def source_scenarios(ctx):
     """a flagged entry still drives its surroundings, on the real engines: (a) diffusion source — a chemostated cell full of
-    molecules next to an empty free cell must fill it; (b) reactant — a chemostated species converts into a free product.
-    The flagged species sits at a random species index; grid and graph; all three engines."""
-    import strengths as st
+    molecules next to an empty free cell must fill it; (b) reactant — a chemostated species converts into a free product at the
+    rate k*N (Euler: exactly; tau-leap: Poisson with mean k*N*t >= 50; Gillespie: one firing per iteration).  The flagged
+    species sits at a random species index; grid and graph; all three engines; reservoirs of 1000, 2^24+1 and 5e9+1 molecules
+    (above the float32 mantissa and above a C int)."""
     rng = ctx.rng
     for kind in ("grid", "graph"):
         for option in ("euler", "tauleap", "gillespie"):
-            for scen in ("source", "reactant"):
+            for scen, N in [("source", 1000)] + [("reactant", N) for N in RESERVOIRS]:
                 ns = rng.choice([2, 3])
-                labels = L.LABELS[:ns]
                 f = rng.randrange(ns)                 # index of the flagged species
                 p = (f + 1) % ns                      # product species (reactant scenario)
-                species = [{"label": lab, "D": (1.0 if scen == "source" else 0.0), "density": 0} for lab in labels]
-                net = {"species": species, "reactions": []}
-                if scen == "reactant":
-                    net["reactions"] = [{"eq": "%s -> %s" % (labels[f], labels[p]), "k+": 1.0}]
-                if kind == "grid":
-                    space = {"type": "grid", "w": 2, "h": 1, "d": 1}
-                else:
-                    space = {"type": "graph", "nodes": [{}, {}], "edges": [{"nodes": [0, 1]}]}
-                desc = {"network": net, "space": space}
-                system = L.build_system(desc)
-                n = 2
-                x = [0.0] * (ns * n)
-                x[f * n + 0] = 1000.0
-                system.state = x
-                system.reset_chemostats()
-                system.set_chemostat(f, 0, 1)
-                if scen == "reactant":
-                    system.set_chemostat(f, 1, 1)
-                chem = [int(v) for v in system.chemostats]
-                nsteps = {"euler": 6, "tauleap": 8, "gillespie": 300}[option]
+                k = 1.0 if N == 1000 else 100.0 / N   # expected firings k*N*t: 500 resp. 50 in t = 1/2
+                nsteps = {"euler": 6, "tauleap": 8, "gillespie": 300 if N == 1000 else 40}[option]
                 seed = rng.randrange(1, 2 ** 31 - 1)
-                case = {"kind": "scenario", "scenario": scen, "space": kind, "option": option, "ns": ns, "flagged": f, "product": p, "nsteps": nsteps, "seed": seed}
+                case = {"kind": "scenario", "scenario": scen, "space": kind, "option": option, "ns": ns, "flagged": f, "product": p,
+                        "nsteps": nsteps, "seed": seed, "N": N, "k": k}
                 try:
-                    script, traj, _ = run_engine(system, option, L.DEFAULT_SYS, Fraction(1, 16), nsteps, seed, False)
+                    ok, what, detail = scenario_eval(case)
                 except Exception as ex:  # noqa
                     ctx.violation("chem-scenario:raises", "%s run raised %s" % (option, type(ex).__name__), case, impl=type(ex).__name__)
                     continue
-                ss = engine_io.samples(traj)
-                last = ss[-1][1]
-                target = (f * n + 1) if scen == "source" else (p * n + 0)
-                ctx.case(("scenario", kind, option, scen, ns, f), nontrivial=True,
-                         sample={"op": "scenario", "scenario": scen, "engine": option, "space": kind, "first": ss[0][1], "last": last})
+                ctx.case(("scenario", kind, option, scen, ns, f, N), nontrivial=True,
+                         sample={"op": "scenario", "scenario": scen, "engine": option, "space": kind, "reservoir": N, "last": detail["last"]})
                 ctx.count("scenario_" + scen)
-                if any(ss[k][1][e] != ss[0][1][e] for k in range(len(ss)) for e in range(ns * n) if chem[e]):
-                    ctx.violation("chem-traj:" + option, "%s: a chemostated entry changed in the %s scenario" % (option, scen), case, impl=last, expected=ss[0][1])
-                elif not last[target] > 0:
-                    what = ("the free cell next to a chemostated cell holding 1000 molecules (D = 1) is still empty after %d iterations: the flagged entry does not act as a diffusion source"
-                            if scen == "source" else "the product of a chemostated reactant (1000 molecules, k = 1) is still 0 after %d iterations: the flagged entry does not act as a reactant") % (len(ss) - 1)
-                    ctx.violation("chem-source:%s:%s" % (option, kind), "%s on a %s: %s" % (option, kind, what), case, impl=last, expected="entry %d > 0" % target)
+                ctx.count("reservoir_%d" % N)
+                if not ok:
+                    key = "chem-traj:" + option if what == "a chemostated entry changed" else "chem-source:%s:%s" % (option, kind)
+                    ctx.violation(key, "%s on a %s, %s scenario: %s" % (option, kind, scen, what), case, impl=detail["last"], expected=detail.get("expected", detail.get("expected_mean")))
 
 
 def run(ctx):
@@ -436,7 +517,8 @@ def run(ctx):
     C1.out_of_time(ctx)          # start the harness clock
     source_scenarios(ctx)
     nsys = ctx.n(36, 500)
-    jobs = []
+    jobs = [flag_dict_job(rng, "grid"), flag_dict_job(rng, "graph")]
+    ctx.count("directed_flag_dicts", 2)
     for k in range(nsys):
         if C1.out_of_time(ctx, -5 if ctx.tier == "quick" else 0):
             ctx.notes.append("stopped generating after %d systems (time budget)" % k)
@@ -462,25 +544,12 @@ def process(ctx, jobs):
 
 
 def replay_scenario(case):
-    ns, f, p, scen, kind, option = case["ns"], case["flagged"], case["product"], case["scenario"], case["space"], case["option"]
-    labels = L.LABELS[:ns]
-    species = [{"label": lab, "D": (1.0 if scen == "source" else 0.0), "density": 0} for lab in labels]
-    net = {"species": species, "reactions": [{"eq": "%s -> %s" % (labels[f], labels[p]), "k+": 1.0}] if scen == "reactant" else []}
-    space = {"type": "grid", "w": 2, "h": 1, "d": 1} if kind == "grid" else {"type": "graph", "nodes": [{}, {}], "edges": [{"nodes": [0, 1]}]}
-    system = L.build_system({"network": net, "space": space})
-    x = [0.0] * (ns * 2)
-    x[f * 2] = 1000.0
-    system.state = x
-    system.reset_chemostats()
-    system.set_chemostat(f, 0, 1)
-    if scen == "reactant":
-        system.set_chemostat(f, 1, 1)
-    chem = [int(v) for v in system.chemostats]
-    script, traj, _ = run_engine(system, option, L.DEFAULT_SYS, Fraction(1, 16), case["nsteps"], case["seed"], False)
-    ss = engine_io.samples(traj)
-    target = (f * 2 + 1) if scen == "source" else (p * 2)
-    ok = all(ss[k][1][e] == ss[0][1][e] for k in range(len(ss)) for e in range(ns * 2) if chem[e]) and ss[-1][1][target] > 0
-    return ok, {"first": ss[0][1], "last": ss[-1][1], "chem": chem, "must_be_positive": target}
+    case = dict(case)
+    case.setdefault("N", 1000)
+    case.setdefault("k", 1.0)
+    ok, what, detail = scenario_eval(case)
+    detail["failure"] = what
+    return ok, detail
 
 
 def replay(ctx, rec):
